@@ -28,10 +28,15 @@ type Knots = Vec<(i16, i16)>;
 
 /// `axis_size`: the header's axisSize (20 = the fields defined today; a larger value is legitimate room for future fields,
 /// filled with 0xA5 here, and readers must step through the axis records by it)
-fn fvar_bytes_flags(axes: &[(i32, i32, i32)], flags: &[u16], axis_size: u16) -> Vec<u8> {
+/// `axes_offset`: the header's axesArrayOffset (16 = directly behind the header; a larger value leaves a gap, filled with
+/// 0x5A, that readers must skip).
+fn fvar_bytes_flags(axes: &[(i32, i32, i32)], flags: &[u16], axis_size: u16, axes_offset: u16) -> Vec<u8> {
     let mut w = W::new();
     let n = axes.len() as u16;
-    w.u16(1).u16(0).u16(16).u16(2).u16(n).u16(axis_size).u16(0).u16(4 * n + 4);
+    w.u16(1).u16(0).u16(axes_offset).u16(2).u16(n).u16(axis_size).u16(0).u16(4 * n + 4);
+    for _ in 16..axes_offset {
+        w.u8(0x5A);
+    }
     for (i, (min, def, max)) in axes.iter().enumerate() {
         w.u32(otmodel::tag(b"ax00") + i as u32).i32(*min).i32(*def).i32(*max).u16(flags[i]).u16(256 + i as u16);
         for _ in 20..axis_size {
@@ -397,17 +402,18 @@ fn run_normalize(ctx: &Ctx) {
             _ => ((ax.1 as i64 + ax.2 as i64) / 2) as i32,
         }
     };
-    let combos: Vec<(usize, usize, usize, u16)> = [20u16, 24, 22].iter().flat_map(|&sz| (0..64).flat_map(move |m| (0..8).flat_map(move |f| (0..64).map(move |u| (m, f, u, sz))))).collect();
+    // (axisSize, axesArrayOffset) forms of the same table
+    let combos: Vec<(usize, usize, usize, (u16, u16))> = [(20u16, 16u16), (24, 16), (22, 16), (20, 20), (24, 28)].iter().flat_map(|&sz| (0..64).flat_map(move |m| (0..8).flat_map(move |f| (0..64).map(move |u| (m, f, u, sz))))).collect();
     let n_multi: u64 = combos
         .par_iter()
-        .map(|&(m, f, u, axis_size)| {
+        .map(|&(m, f, u, (axis_size, axes_offset))| {
             let mi = [m % 4, (m / 4) % 4, m / 16];
             let fl = [(f & 1) as u16, ((f >> 1) & 1) as u16, ((f >> 2) & 1) as u16];
             let ui = [u % 4, (u / 4) % 4, u / 16];
-            let fv = fvar_bytes_flags(&three, &fl, axis_size);
+            let fv = fvar_bytes_flags(&three, &fl, axis_size, axes_offset);
             let av = avar_bytes(&[kinds[mi[0]].clone(), kinds[mi[1]].clone(), kinds[mi[2]].clone()]);
             let users: Vec<i32> = (0..3).map(|i| user_of(three[i], ui[i])).collect();
-            let desc = || json!({"axes_16.16": three, "axis_flags": fl, "fvar_axisSize": axis_size, "avar_maps": [&kinds[mi[0]], &kinds[mi[1]], &kinds[mi[2]]], "users_16.16": users});
+            let desc = || json!({"axes_16.16": three, "axis_flags": fl, "fvar_axisSize": axis_size, "fvar_axesArrayOffset": axes_offset, "avar_maps": [&kinds[mi[0]], &kinds[mi[1]], &kinds[mi[2]]], "users_16.16": users});
             let r = guard(|| {
                 let fvar = ReadScope::new(&fv).read::<FvarTable<'_>>().map_err(|e| format!("fvar {:?}", e))?;
                 let avar = ReadScope::new(&av).read::<AvarTable<'_>>().map_err(|e| format!("avar {:?}", e))?;
